@@ -1,5 +1,6 @@
 pub mod addrsort;
 pub mod cli;
 pub mod eyeballs;
+pub mod lab;
 pub mod report;
 pub mod reqsweep;
